@@ -32,6 +32,9 @@ type pair struct {
 func ms(n int) time.Duration { return time.Duration(n) * time.Millisecond }
 
 func run(t *testing.T, tape *simrt.Tape) *hx.Outcome {
+	if tape.Draw("cfg.campaign", 60) == 0 { // own stream: older tapes replay unchanged; these runs are ~1000x longer
+		return runDaemon(t, tape)
+	}
 	conc := 1 + tape.Draw("cfg", 3)
 	silence := []time.Duration{0, ms(10), time.Second, 5 * time.Second}[tape.Draw("cfg", 4)]
 	nPrio := tape.Draw("cfg", 4)
